@@ -43,6 +43,9 @@ RULE = (
     "TemperingContainer::{timesteps, tempering_step, parallel_*}, swap_manager_and_state, and serde_json snapshot/restore of QmcIsingGraph, "
     "SerializeQmcGraph, Qmc, FastOps, TemperingContainer, SerializeTemperingContainer - after construction, after an RVB sweep and at random "
     "points, the history continuing on the restored object; restored occupancy must equal the one before, a fresh pool's and Generated.caps) "
+    "plus every public cluster / sweep / cursor / fold entry point with its degenerate parameter (flip probability 0, tiny, 1/2, 1; empty "
+    "ranges; beta = 0; zero steps; cursor borrowed and returned at once; empty manager) and LARGE runs (operator strings of 6000-14000 "
+    "operators, pooled vectors far beyond 4096 entries) "
     "along random call histories on Ising samplers "
     "(14-17 lattices incl. pair, rings, isolated variables, frustrated; heat bath on/off; RVB on/off; h = 0 and h != 0; beta 1/64..8; "
     "cutoff 1..4n, so the first calls see an empty operator string) and generic samplers (single spin, Heisenberg/XXZ chains with loop "
